@@ -15,7 +15,9 @@ EXPLANATION = (
     "overwritten or the function exits (liveness on clang's CFG); (R1.sticky) a function that "
     "initialises a Thrift encoder/decoder tests its sticky error state before returning CARQUET_OK; "
     "(R2) resource pairing on error paths is decided by the ownership engine (see rules/ownership). "
-    "Decides these clauses; a NULL result that is tolerated rather than dereferenced is not decided.")
+    "(R1.fail) the branch taken when an allocator returned NULL leaves through an error signal - a failure "
+    "constant, a cleanup jump, a failure stored in the status - and never returns CARQUET_OK/true/non-NULL "
+    "nor the result of further work. Decides these clauses; a NULL result that is tolerated rather than dereferenced is not decided.")
 
 ALLOC_EXT = {"malloc", "calloc", "realloc", "strdup", "strndup", "aligned_alloc", "posix_memalign"}
 
@@ -23,6 +25,8 @@ ALLOC_EXT = {"malloc", "calloc", "realloc", "strdup", "strndup", "aligned_alloc"
 def run(ctx):
     P = ctx.P
     ctx.clause("C19.R1 allocation results tested before use; allocating callees' statuses consumed; sticky codec status tested")
+    ctx.clause("C19.R1.fail the NULL branch of every allocation test reports a failure (no success return, no continuing with further work)")
+    ctx.clause("C19.R2 resources are released, handed over or returned exactly once on every path")
     fns = [f for f in P.lib_functions() if P.rel(f.file).startswith("src/")]
     cg = callgraph.get(P)
     may_alloc_keys = cg.reaches_external(ALLOC_EXT)
@@ -40,6 +44,11 @@ def run(ctx):
     ctx.count("may_allocate_functions", len(may_alloc))
     ctx.floor("C19 allocator call sites", n1, 120)
     ctx.floor("C19 allocating status call sites", n2, 120)
+
+    from ..rules import allocfail
+    nf = allocfail.check(ctx, fns)
+    ctx.count("allocation_null_branches", nf)
+    ctx.floor("C19 allocation NULL branches", nf, 100)
 
     n3 = ownership.check(ctx, fns, "R2", "own")
     ctx.count("acquisition_sites", n3)
